@@ -886,7 +886,7 @@ def jsonEvents : List JVal → List (Nat × Str) → JRes (List (Nat × Str))
 
 /-- `parseOTLPJson`. The span's attributes start as `encoding/json` left them in the struct: one per element of
     `attributes`, the value an empty `AnyValue` (`unset`) when the element has a `value` object; an element without
-    one has a nil `Value` and faults when it is assigned through. -/
+    one has a nil `Value` (`nilp`) and faults when it is assigned through. -/
 def parseOTLPJson (fbits : Bytes → Nat) (d : OJsonDoc) : JRes OSpan :=
   match d.raw with
   | none => .err
@@ -900,7 +900,7 @@ def parseOTLPJson (fbits : Bytes → Nat) (d : OJsonDoc) : JRes OSpan :=
     let events ← jsonEvents rawEvents d.sEvents
     let attributes := match jGet ms (ascii "attributes") with | some (.arr as) => as | _ => []
     let (localN, remoteN) ← jsonServiceNames attributes
-    let attrs0 : List KV := d.sAttrs.map (fun a => (a.1, AnyValue.unset))
+    let attrs0 : List KV := d.sAttrs.map (fun a => (a.1, if a.2 then AnyValue.unset else AnyValue.nilp))
     -- service.name / remoteService.name: first attribute of that key, value assigned through `attr.Value`
     let hasVal (k : Str) : Bool := match d.sAttrs.find? (fun a => a.1 == k) with | some a => a.2 | none => true
     if !hasVal kServiceName then JRes.panic else
